@@ -49,6 +49,10 @@ def gen_case(rng, cid):
             uses.append(path(*q))
         else:
             uses.append(path(*(q + [rng.choice(NAMES + ['A', 'Zed'])])))
+    # the same import written twice with another one of the same short name in between: the LAST one wins, also when it repeats
+    # an earlier one (`use P::T; use Q::T; use P::T;` binds T to P::T)
+    if len(uses) >= 2 and rng.random() < 0.35:
+        uses.append(list(rng.choice(uses[:-1])))
     flds = []
     dd = {tuple(pp): {d[2]: d for d in dl} for (pp, dl, _) in mods}
     ulist = [list(u[1:]) for u in uses]
